@@ -18,7 +18,7 @@ from ..sym import Explorer, N, is_const, show, walk
 from ..wrules import model, w2
 from .c03 import EFFECTS, MUTATING, effect_kind
 
-TECHNIQUE = "static analysis: effect set of ZiPatch::create over the call graph; root-provenance tags on reconstructed expressions; ordered call events on all return paths; read/write symmetry of the written records; constant agreement of the block writer/reader pair"
+TECHNIQUE = "static analysis: effect set of ZiPatch::create over the call graph; root-provenance tags on reconstructed expressions; ordered call events on all return paths; read/write symmetry of the written records; constant agreement of the block writer/reader pair; must-pass-through of the AddFile write on the apply side"
 TRUSTED = ["rustc nightly MIR and call graph", "pv.sym expression reconstruction", "pv/wire.py binrw model"]
 
 
